@@ -131,6 +131,19 @@ def proof_step(prop, thorough=False):
                 if not a.startswith("Closed under the global context"):
                     res["ok"] = False
                     res["failures"].append(f"{t} depends on assumptions: {a[:300]}")
+    # ---- the constants the model shares with the source: read out of /repo now, proved equal to the model's
+    if ok:
+        from . import srctie
+        st = srctie.check(prop)
+        res["source_tie"] = {"located": st["located"], "not_located": st["not_located"]}
+        res["obligations"] += len(st["located"]); res["discharged"] += len(st["theorems"])
+        res["theorems"] = res["theorems"] + st["theorems"]
+        for t in st["theorems"]:
+            res["assumptions"][t] = "Closed under the global context"
+        if st["failures"]:
+            res["ok"] = False; res["failures"] += st["failures"]
+        if st["located"]:
+            res["checker_cmd"] += f" ; coqc on {len(st['located'])} src_tie_* statements generated from the source by vlib/srctie.py"
     if thorough and res["ok"]:
         rc, out, err = run(["coqchk", "-silent", "-o", "-Q", os.path.join(COQ, "theories"), "TSS", "-Q",
                             os.path.join(COQ, "props"), "TSSProps", f"TSSProps.{prop}"], cwd=COQ, timeout=3000)
